@@ -134,12 +134,11 @@ def hf_channel_to_kraus_op(hf_channel, dim_in):
 # bad performance
 def hf_channel_to_choi_op(hf0, dim_in):
     ret = []
-    tmp0 = np.zeros((dim_in,dim_in), dtype=np.float64)
     for ind0 in range(dim_in):
         for ind1 in range(dim_in):
+            tmp0 = np.zeros((dim_in,dim_in), dtype=np.float64) #a fresh array: hf0 may return its argument (or a view of it)
             tmp0[ind0,ind1] = 1
             ret.append(hf0(tmp0))
-            tmp0[ind0,ind1] = 0
     dim_out = ret[0].shape[0]
     ret = np.stack(ret, axis=0).reshape(dim_in,dim_in,dim_out,dim_out).transpose(0,2,1,3)
     return ret
